@@ -39,8 +39,11 @@ def plan(tier, seed):
             else:
                 shapes = [[2]] if heavy(sp.name) else [[3], [2]]
                 ptss = ([2, 3] if heavy(sp.name) else [2, 3, 4]) if has_list and not mtm else [2]
+                # (4 control points only on 2 cells: with 3 cells single jobs ran 10-25 min and left solver verdicts unknown)
             for shape in shapes:
                 for pts in ptss:
+                    if pts >= 4 and shape[0] > 2:
+                        continue
                     reps = ['m'] if tier == 'quick' or heavy(sp.name) else ['m', 'n']
                     for rp in reps:
                         kinds = ['f'] if tier == 'quick' else ['f', 'i']
@@ -56,7 +59,7 @@ def plan(tier, seed):
                 jobs.append(dict(var, kind='def', cmd=sp.name, shape=[4], pts=2, reps='n' if tier == 'quick' else 'm', kinds='f', k=1))
         if sp.name in MONOTONE:
             for var in D.default_variants(sp, 'quick'):
-                jobs.append(dict(var, kind='monotone', cmd=sp.name, shape=[2] if tier == 'quick' else [3], pts=2, reps='m', kinds='f', k=1))
+                jobs.append(dict(var, kind='monotone', cmd=sp.name, shape=[2] if (tier == 'quick' or 'ZScore' in sp.name) else [3], pts=2, reps='m', kinds='f', k=1))
         if sp.name in VARIANT_OF:
             for var in D.default_variants(sp, 'quick'):
                 if var.get('omit'):
@@ -174,7 +177,7 @@ def describe(tier):
         'functions': ['execute() of ' + ', '.join(s.name for s in conv_commands()) + ' (mpilot/libraries/eems/fuzzy.py, basic.py)', 'mpilot/utils.py: insure_fuzzy'],
         'bounds': {
             'quick': '2 cells, 3 control points / categories in symbolic (any) order (CurveZScore: 2), every Direction and IgnoreZeros value, thresholds given or defaulted; monotonicity on 2 cells; inverse and variant-vs-Normalize relations on 2 cells',
-            'thorough': '2-3 cells, 2-4 control points (CurveZScore: 2 cells, 2-3 points), masked and nomask inputs, int64 and float64 data',
+            'thorough': '2-3 cells with 2-3 control points, 2 cells with 4 (CurveZScore: 2 cells, 2-3 points), MeanToMid on 4 cells, masked and nomask inputs, int64, uint64 and float64 data; monotonicity on 3 cells (z-score commands: 2)',
         },
         'outside': ['IEEE-754 rounding', 'default z-score thresholds of NormalizeZScore (documentation and code disagree; explicit thresholds only)',
                     'NormalizeZScore with StartVal >= EndVal', 'arrays with fewer than two distinct non-missing values'],
